@@ -63,38 +63,41 @@ theorem float_addsubmul_eq_spec (R : Rounding) (x y : Dbl) (hx : stable x) (hy :
     (opMul R (.flt x) (.flt y)).map absNum = specBin (implR R) .mul (.float x) (.float y) := by
   have hn := stable_neg y hy
   refine ⟨?_, ?_, ?_⟩ <;>
-    simp [opAdd, opSub, opMul, coerce, mixedOverflow, intOvf, isFloat, asDec, liftF, fadd, fsub, fmul, specBin, promote, XVal.ty, Ty.rank,
+    simp [opAdd, opSub, opMul, coerce, mixedOverflow, intOvf, isFloat, promF, isFlt, isDbl, asDec, liftF, fadd, fsub, fmul, specBin, promote, XVal.ty, Ty.rank,
       XVal.toRat?, floatBin, XVal.toDbl, mkFloating, absNum, Except.map, pure, Except.pure,
       mkFloat_add R x y hx hy, mkFloat_add R x y.neg hx hn, mkFloat_mul]
 
-theorem float_div_eq_spec_partial (R : Rounding) (v : Ver) (x y : Dbl)
-    (hk : trigF06t R v .div (.flt x) (.flt y) = false) :
+theorem float_div_eq_spec (R : Rounding) (v : Ver) (x y : Dbl) (hx : x.wf) :
     (opDiv R v (.flt x) (.flt y)).map absNum = specBin (implR R) .div (.float x) (.float y) := by
-  have hz : Dbl.isZero y = false := by
-    simpa [trigF06t, coerce, mixedOverflow, intOvf, isFloat, floatTyped, isFlt, isDbl, isZero] using hk
-  simp [opDiv, coerce, mixedOverflow, intOvf, isFloat, asDec, liftF, ftruediv, isZero, hz, specBin, promote, XVal.ty, Ty.rank,
-      XVal.toRat?, floatBin, XVal.toDbl, mkFloating, absNum, Except.map, pure, Except.pure, mkFloat_div]
+  cases x <;> cases y <;>
+    simp [opDiv, coerce, mixedOverflow, intOvf, isFloat, promF, isFlt, isDbl, isZero, Dbl.isZero, asDec, liftF, ftruediv,
+      ieeeDiv, specBin, promote, XVal.ty, Ty.rank, XVal.toRat?, floatBin, XVal.toDbl, mkFloating, absNum, isFloat, signOf,
+      zeroIsNeg, Dbl.isNeg, Except.map, pure, Except.pure, mkFloat_nan, mkFloat_inf, mkFloat_zero, mkFloat_rnd]
+  · rename_i a b; cases a <;> simp [mkFloat_inf]
+  · rename_i q b
+    have hq : q ≠ 0 := hx
+    by_cases h : 0 < q
+    · have : ¬ q < 0 := by linarith
+      simp [h, this, mkFloat_inf]
+    · have : q < 0 := lt_of_le_of_ne (not_lt.1 h) hq
+      simp [h, this, mkFloat_inf]
 
 theorem float_idiv_eq_spec (R : Rounding) (x y : Dbl) :
     (opIdiv R (.flt x) (.flt y)).map absNum = specBin (implR R) .idiv (.float x) (.float y) := by
   cases x <;> cases y <;>
-    simp [opIdiv, coerce, mixedOverflow, intOvf, isFloat, isZero, Dbl.isZero, asDec, idivFloat, dblIdiv, specBin, promote, XVal.ty, Ty.rank,
+    simp [opIdiv, coerce, mixedOverflow, intOvf, isFloat, promF, isFlt, isDbl, isZero, Dbl.isZero, asDec, idivFloat, dblIdiv, specBin, promote, XVal.ty, Ty.rank,
       XVal.toRat?, floatBin, XVal.toDbl, absNum, numIsInf, numIsNan, Dbl.isInf, Dbl.isNan,
       Except.map, pure, Except.pure, bind, Except.bind, throw, throwThe, MonadExceptOf.throw]
-  rename_i p q
-  exact floor_corr_eq_trunc (p / q)
 
-theorem float_mod_eq_spec_partial (R : Rounding) (v : Ver) (hv : v ≠ .v10) (x y : Dbl) (hx : stable x)
-    (hm : stable (fmod x y))
-    (hk : trigF06t R v .mod (.flt x) (.flt y) = false) :
+theorem float_mod_eq_spec (R : Rounding) (v : Ver) (x y : Dbl) (hx : stable x)
+    (hm : stable (fmod x y)) :
     (opMod R v (.flt x) (.flt y)).map absNum = specBin (implR R) .mod (.float x) (.float y) := by
-  have hz : Dbl.isZero y = false := by
-    simpa [trigF06t, coerce, mixedOverflow, intOvf, isFloat, floatTyped, isFlt, isDbl, isZero] using hk
   unfold stable at hx hm
-  cases x <;> cases y <;> simp [Dbl.isZero] at hz <;>
-    simp_all [opMod, coerce, mixedOverflow, intOvf, isFloat, isZero, Dbl.isZero, asDec, liftF, fmod, ieeeMod, specBin, promote, XVal.ty, Ty.rank,
+  cases x <;> cases y <;>
+    simp_all [opMod, coerce, mixedOverflow, intOvf, isFloat, promF, isFlt, isDbl, asDblOf, isZero, Dbl.isZero, asDec, liftF,
+      fmod, ieeeMod, specBin, promote, XVal.ty, Ty.rank,
       XVal.toRat?, floatBin, XVal.toDbl, mkFloating, absNum, isFloat, numIsInf, numIsNan, Dbl.isInf, Dbl.isNan,
-      pyFloatModIsNan, Except.map, pure, Except.pure, mkFloat_nan, mkFloat_zero]
+      pyFloatModIsNan, Except.map, pure, Except.pure, mkFloat_nan, mkFloat_zero, mkFloat_inf]
 
 
 /-- integer operands are inside the range that `Float.__new__` leaves alone (|n| ≤ 3.4028235e38) -/
@@ -123,26 +126,24 @@ theorem model_promote_float_addsubmul (R : Rounding) (a b : Num) (h : floatTyped
     opMul R a b = opMul R (.flt (asF R a)) (.flt (asF R b)) := by
   obtain ⟨hA, hB⟩ := intOvf_of_finite R a b hi
   cases a <;> cases b <;> simp [floatTyped, isFlt, isDbl] at h <;> simp [intOvf] at hA hB <;>
-    simp [opAdd, opSub, opMul, coerce, mixedOverflow, intOvf, isFloat, asDec, liftF, asF, hA, hB]
+    simp [opAdd, opSub, opMul, coerce, mixedOverflow, intOvf, isFloat, promF, isFlt, isDbl, asDec, liftF, asF, hA, hB]
 
-theorem isZero_asF_of_not_trig (R : Rounding) (hF : Faithful R) (v : Ver) (op : BinOp) (hop : op = .div ∨ op = .mod)
-    (a b : Num) (h : floatTyped a b = true) (hk : trigF06t R v op a b = false) :
-    Dbl.isZero (asF R b) = false := by
-  have hz := isZero_ofInt R hF
-  rcases hop with rfl | rfl <;>
-  cases a <;> cases b <;> simp [floatTyped, isFlt, isDbl] at h <;>
-    simp [trigF06t, floatTyped, isFlt, isDbl, coerce, mixedOverflow, intOvf, isFloat, isZero] at hk <;>
-    simp_all [asF]
+theorem signOf_flt_ofInt (R : Rounding) (hF : Faithful R) (n : Int) :
+    signOf (.flt (ofInt R n)) = signOf (.int n) := by rw [signOf_flt, signOf_ofInt R hF]
 
 theorem div_promote_float (R : Rounding) (hF : Faithful R) (v : Ver) (a b : Num) (h : floatTyped a b = true)
-    (hi : intsFinite R a b) (hk : trigF06t R v .div a b = false) :
+    (hi : intsFinite R a b) :
     opDiv R v a b = opDiv R v (.flt (asF R a)) (.flt (asF R b)) := by
   have hz := isZero_ofInt R hF
-  have hb := isZero_asF_of_not_trig R hF v .div (Or.inl rfl) a b h hk
+  have hs := signOf_flt_ofInt R hF
   obtain ⟨hA, hB⟩ := intOvf_of_finite R a b hi
   cases a <;> cases b <;> simp [floatTyped, isFlt, isDbl] at h <;> simp [intOvf] at hA hB <;>
-    simp [asF] at hb <;>
-    simp_all [opDiv, coerce, mixedOverflow, intOvf, isFloat, asDec, liftF, asF, isZero, isFloat]
+    simp [opDiv, coerce, mixedOverflow, intOvf, isFloat, promF, isFlt, isDbl, asDec, liftF, asF, isZero, isFloat, hz, hs,
+      hA, hB]
+  · rename_i d n
+    by_cases hn : n = 0
+    · subst hn; simp [zeroIsNeg, ofInt, rnd]
+    · simp [hn]
 
 theorem idiv_promote_float (R : Rounding) (hF : Faithful R) (a b : Num) (h : floatTyped a b = true)
     (hi : intsFinite R a b) :
@@ -151,24 +152,18 @@ theorem idiv_promote_float (R : Rounding) (hF : Faithful R) (a b : Num) (h : flo
   have hn := isNan_ofInt R hF
   obtain ⟨hA, hB⟩ := intOvf_of_finite R a b hi
   cases a <;> cases b <;> simp [floatTyped, isFlt, isDbl] at h <;> simp [intOvf] at hA hB <;>
-    simp [opIdiv, coerce, mixedOverflow, intOvf, isFloat, asDec, asF, isZero, numIsInf, numIsNan, hz, hn, hA, hB] <;>
+    simp [opIdiv, coerce, mixedOverflow, intOvf, isFloat, promF, isFlt, isDbl, asDec, asF, isZero, numIsInf, numIsNan, hz, hn, hA, hB] <;>
     (try rfl)
 
-theorem mod_promote_float (R : Rounding) (hF : Faithful R) (v : Ver) (hv : v ≠ .v10) (a b : Num)
-    (h : floatTyped a b = true) (hi : intsFinite R a b) (hk : trigF06t R v .mod a b = false) :
+theorem mod_promote_float (R : Rounding) (hF : Faithful R) (v : Ver) (a b : Num)
+    (h : floatTyped a b = true) (hi : intsFinite R a b) :
     opMod R v a b = opMod R v (.flt (asF R a)) (.flt (asF R b)) := by
   have hz := isZero_ofInt R hF
   have hn := isNan_ofInt R hF
   obtain ⟨hA, hB⟩ := intOvf_of_finite R a b hi
   cases a <;> cases b <;> simp [floatTyped, isFlt, isDbl] at h <;> simp [intOvf] at hA hB <;>
-    simp [trigF06t, floatTyped, isFlt, isDbl, coerce, mixedOverflow, intOvf, isFloat, numIsInf, isZero, hv] at hk <;>
-    simp [opMod, coerce, mixedOverflow, intOvf, isFloat, asDec, asF, isZero, isFloat, numIsInf, numIsNan, liftF, hz, hn,
-      hv, hA, hB] <;> (try rfl)
-  · rename_i n d
-    simp only [hk.1]
-    by_cases hc : Dbl.isInf d = true ∧ ¬ n = 0
-    · exact absurd (hk.2 hc.1) hc.2
-    · simp [hc]
+    simp [opMod, coerce, mixedOverflow, intOvf, isFloat, promF, isFlt, isDbl, asDblOf, asDec, asF, isZero, isFloat, numIsInf,
+      numIsNan, liftF, hz, hn, hA, hB] <;> (try rfl)
 
 
 theorem mkFloat_idem (d : Dbl) : stable (mkFloat d) := by
@@ -201,36 +196,45 @@ theorem asF_stable (R : Rounding) (a b : Num) (hs : intsStable R a b) (ha : numS
       | exact ⟨ha, mkFloat_idem _⟩
       | exact ⟨ha, hb⟩
 
-theorem trig_flt_of_nonzero (R : Rounding) (v : Ver) (x y : Dbl) (hz : Dbl.isZero y = false) :
-    trigF06t R v .div (.flt x) (.flt y) = false ∧ trigF06t R v .mod (.flt x) (.flt y) = false := by
-  simp [trigF06t, floatTyped, isFlt, isDbl, coerce, mixedOverflow, intOvf, isFloat, isZero, hz]
-
-/-- PARTIAL (F06t; precision = finding F06c): every operator on operands whose promoted type is xs:float
-(xs:float with xs:float, xs:integer or xs:decimal) is the F&O operator computed with the rounding
-`implR R` = binary64 rounding + `Float` clamp in place of binary32 rounding: promotion, special values,
-signs of zero, error codes and the xs:float result class are as specified. -/
-theorem float_ops_eq_spec (R : Rounding) (hF : Faithful R) (v : Ver) (hv : v ≠ .v10) (op : BinOp) (a b : Num)
+/-- every operator on operands whose promoted type is xs:float (xs:float with xs:float, xs:integer or
+xs:decimal) is the F&O operator computed with the rounding `implR R` = binary64 rounding + `Float` clamp in
+place of binary32 rounding: promotion, special values, signs of zero, error codes and the xs:float result
+class are as specified (the precision itself = finding F06c). -/
+theorem float_ops_eq_spec (R : Rounding) (hF : Faithful R) (v : Ver) (op : BinOp) (a b : Num)
     (h : floatTyped a b = true) (hi : intsFinite R a b) (hs : intsStable R a b)
-    (ha : numStable a) (hb : numStable b)
-    (hm : op = .mod → stable (fmod (asF R a) (asF R b)))
-    (hk : trigF06t R v op a b = false) :
+    (ha : numStable a) (hb : numStable b) (hwa : numWf a)
+    (hm : op = .mod → stable (fmod (asF R a) (asF R b))) :
     (modelBin R v op a b).map absNum = specBin (implR R) op (absNum a) (absNum b) := by
   rw [spec_promote_float R op a b h hs]
   obtain ⟨sa, sb⟩ := asF_stable R a b hs ha hb h
+  have hw : (asF R a).wf := by
+    cases a with
+    | int n => exact rnd_wf R hF _
+    | dec n s =>
+      have := rnd_wf R hF ((n : Rat) / ((p10 s : Nat) : Rat))
+      show (mkFloat (ofDec R n s)).wf
+      unfold ofDec
+      generalize rnd R.r64 ((n : Rat) / ((p10 s : Nat) : Rat)) = d at this
+      cases d with
+      | fin q =>
+        simp only [mkFloat]
+        split
+        · trivial
+        · split
+          · trivial
+          · split
+            · trivial
+            · exact this
+      | _ => trivial
+    | dbl d => exact hwa
+    | flt d => exact hwa
   cases op with
   | add => simp only [modelBin]; rw [(model_promote_float_addsubmul R a b h hi).1]; exact (float_addsubmul_eq_spec R _ _ sa sb).1
   | sub => simp only [modelBin]; rw [(model_promote_float_addsubmul R a b h hi).2.1]; exact (float_addsubmul_eq_spec R _ _ sa sb).2.1
   | mul => simp only [modelBin]; rw [(model_promote_float_addsubmul R a b h hi).2.2]; exact (float_addsubmul_eq_spec R _ _ sa sb).2.2
-  | div =>
-    have hz := isZero_asF_of_not_trig R hF v .div (Or.inl rfl) a b h hk
-    simp only [modelBin]; rw [div_promote_float R hF v a b h hi hk]
-    exact float_div_eq_spec_partial R v _ _ (trig_flt_of_nonzero R v _ _ hz).1
+  | div => simp only [modelBin]; rw [div_promote_float R hF v a b h hi]; exact float_div_eq_spec R v _ _ hw
   | idiv => simp only [modelBin]; rw [idiv_promote_float R hF a b h hi]; exact float_idiv_eq_spec R _ _
-  | mod =>
-    have hz := isZero_asF_of_not_trig R hF v .mod (Or.inr rfl) a b h hk
-    simp only [modelBin]; rw [mod_promote_float R hF v hv a b h hi hk]
-    exact float_mod_eq_spec_partial R v hv _ _ sa (hm rfl) (trig_flt_of_nonzero R v _ _ hz).2
-
+  | mod => simp only [modelBin]; rw [mod_promote_float R hF v a b h hi]; exact float_mod_eq_spec R v _ _ sa (hm rfl)
 
 theorem stable_abs (d : Dbl) (h : stable d) : stable d.abs := by
   cases d with
@@ -272,10 +276,10 @@ theorem float_unops_eq_spec (R : Rounding) (v : Ver) (op : UnOp) (d : Dbl) (hs :
     | nan => simp [roundCore, exactOf, absNum, specUn, floatUn]
     | inf n => simp [roundCore, exactOf, absNum, specUn, floatUn]
     | zero n =>
-      simp [roundCore, exactOf, absNum, specUn, floatUn, quantMag_zero, numDigits, numDigits10, retype, unscale_zero, argNeg,
+      simp [roundCore, exactOf, absNum, specUn, floatUn, quantMag_zero, numDigits, numDigits10, roundCtxDigits, retype, unscale_zero, argNeg,
         Dbl.isNeg, mkFloat_zero]
     | fin x =>
-      have hd : ¬ numDigits (quantMag (if x > 0 then Mode.halfUp else Mode.halfDown) x p) > 28 := by
+      have hd : ¬ numDigits (quantMag (if x > 0 then Mode.halfUp else Mode.halfDown) x p) > roundCtxDigits := by
         simpa [trigF06p, exactOf] using hk
       simp only [roundCore, exactOf, hd, if_false, retype, argNeg, Dbl.isNeg, absNum, specUn, floatUn, backTo,
         exactUn, quantize_round_eq, implR]
